@@ -163,6 +163,9 @@ class CFG:
                 fn_ = v.func.attr if isinstance(v.func, ast.Attribute) else v.func.id if isinstance(v.func, ast.Name) else ""
                 if fn_[:1].isupper() and not fn_.isupper() or fn_ in ("bytes", "bytearray", "str", "int", "float", "list", "dict", "set", "tuple", "frozenset", "len", "bool"):
                     return NN
+            # a slice x[a:b] is a sequence of the kind of x (possibly empty), never None
+            if isinstance(v, ast.Subscript) and isinstance(v.slice, ast.Slice):
+                return NN
             return TOP
 
         def decide(val, test: ast.expr):
@@ -254,6 +257,24 @@ class CFG:
                 for x in walk_expr(e):
                     if isinstance(x, ast.NamedExpr) and isinstance(x.target, ast.Name):
                         bad.add(x.target.id)
+        # `x = y` where y is a local bound exactly once (and by a plain assignment): x holds what that assignment gave y.  A
+        # mutable display is only "an object" through the alias (its truth may change through either name).
+        params0 = set(self.func.params)
+        for _pass in range(3):
+            changed = False
+            for n in self.nodes:
+                a = n.ast
+                if n.kind == "stmt" and type(a) in (ast.Assign, InlineReturn) and len(a.targets) == 1 and isinstance(a.targets[0], ast.Name) \
+                        and isinstance(a.value, ast.Name) and stores[a.targets[0].id].get(n.id) == TOP:
+                    y = a.value.id
+                    if y in bad or y in params0 or len(stores.get(y, {})) != 1:
+                        continue
+                    (v,) = stores[y].values()
+                    if v != TOP:
+                        stores[a.targets[0].id][n.id] = NN if v[0] == "m" else v
+                        changed = True
+            if not changed:
+                break
         # nodes at which the object a flag names may be changed in place or escapes to code that may change it: a subscript
         # / attribute store or delete on it, a method call on it, the bare name handed to a call, stored into something,
         # put into a display, yielded, awaited or captured by a nested function.  There a mutable value's truth is forgotten.
